@@ -9,9 +9,11 @@ import (
 	"os/exec"
 	"path/filepath"
 	"reflect"
+	"runtime"
 	"sort"
 	"strings"
 	"sync"
+	"time"
 
 	"github.com/dave/jennifer/jen"
 
@@ -197,6 +199,55 @@ func C09Race(rounds int) {
 		wg.Wait()
 	}
 	fmt.Println("race pass done")
+}
+
+// blockingWriter signals that it was reached and then blocks until released.
+type blockingWriter struct {
+	entered chan<- int
+	release <-chan struct{}
+	id      int
+	once    sync.Once
+}
+
+func (w *blockingWriter) Write(p []byte) (int, error) {
+	w.once.Do(func() { w.entered <- w.id })
+	<-w.release
+	return len(p), nil
+}
+
+// C09Block (run in a process of its own, with a small GOMAXPROCS): GOMAXPROCS+2 independent Files and
+// fragments are rendered on goroutines of their own into writers that block; every render must get
+// as far as its writer although all the others sit in theirs. Prints {"renders": n, "reached": k}.
+func C09Block() {
+	n := runtime.GOMAXPROCS(0) + 2
+	entered := make(chan int, 2*n)
+	release := make(chan struct{})
+	for i := 0; i < n; i++ {
+		i := i
+		go func() {
+			w := &blockingWriter{entered: entered, release: release, id: i}
+			if i%2 == 0 {
+				f := jen.NewFile(fmt.Sprintf("p%d", i))
+				f.Var().Id("x").Op("=").Qual("a/f", "X").Call(jen.Lit(i))
+				f.Render(w)
+			} else {
+				jen.Id("x").Op("=").Qual("b/f", "Y").Call(jen.Lit(i)).Render(w)
+			}
+		}()
+	}
+	reached := map[int]bool{}
+	deadline := time.After(90 * time.Second)
+wait:
+	for len(reached) < n {
+		select {
+		case id := <-entered:
+			reached[id] = true
+		case <-deadline:
+			break wait
+		}
+	}
+	json.NewEncoder(os.Stdout).Encode(map[string]int{"renders": n, "reached": len(reached)})
+	close(release)
 }
 
 type c09Case struct {
@@ -544,6 +595,28 @@ func runC09(r *ev.Recorder) {
 					}
 				}
 			}
+		}
+	}
+
+	// (2d) independent renders do not wait for each other: in a process with GOMAXPROCS=2, four
+	// renders into writers that block
+	if self != "" {
+		cmd := shardCommand(self, "c09block")
+		cmd.Env = append(os.Environ(), "GOMAXPROCS=2")
+		var out []byte
+		var err error
+		r.External(func() { out, err = cmd.Output() })
+		var res map[string]int
+		if err != nil || json.Unmarshal(out, &res) != nil {
+			fmt.Fprintf(os.Stderr, "C09: blocked-writer process failed: %v\n%s\n", err, out)
+			os.Exit(2)
+		}
+		r.Eval(1)
+		states++
+		r.Note("blocked_writers", res)
+		if res["reached"] != res["renders"] {
+			desc := fmt.Sprintf("%d independent Files / fragments rendered on goroutines of their own into writers that block (GOMAXPROCS=2): only %d reached their writer within 90 s - the others wait for a render that is not theirs", res["renders"], res["reached"])
+			r.Violate(ev.Violation{Signature: "c09:renders-wait-for-each-other", What: desc, Case: ev.JSON(c09Case{Kind: "race", Desc: desc}), Detail: desc})
 		}
 	}
 
